@@ -1,0 +1,23 @@
+//go:build verif
+
+package sql
+
+// Logical step counters for runtime verification: VerifTokStep is called on
+// every TokenList.Cur, VerifScanStep on every character the scanner reads.
+
+var (
+	VerifTokStep  func()
+	VerifScanStep func()
+)
+
+func vTokStep() {
+	if VerifTokStep != nil {
+		VerifTokStep()
+	}
+}
+
+func vScanStep() {
+	if VerifScanStep != nil {
+		VerifScanStep()
+	}
+}
